@@ -5,6 +5,7 @@
    gen_lla_exit_p<k> that path's condition (k = 1..6; more iterations are outside the model and
    reported by the correspondence run if the implementation ever needs them). *)
 From Coq Require Import Reals ZArith Lra.
+From Interval Require Import Tactic.
 From PyOrb.lib Require Import PyReal.
 From PyOrb.spec Require Import Spec_Geodesy.
 From PyOrb.gen Require Import Gen_astronomy Gen_orbital.
@@ -20,8 +21,9 @@ Theorem C04_lat_range : forall x y z d,
   (-90 <= gen_lla_lat_p3 x y z d <= 90) /\ (-90 <= gen_lla_lat_p4 x y z d <= 90) /\
   (-90 <= gen_lla_lat_p5 x y z d <= 90) /\ (-90 <= gen_lla_lat_p6 x y z d <= 90).
 Proof.
-  intros. repeat split; first [apply lat_range_p1|apply lat_range_p2|apply lat_range_p3
-    |apply lat_range_p4|apply lat_range_p5|apply lat_range_p6].
+  intros x y z d.
+  exact (conj (lat_range_p1 x y z d) (conj (lat_range_p2 x y z d) (conj (lat_range_p3 x y z d)
+        (conj (lat_range_p4 x y z d) (conj (lat_range_p5 x y z d) (lat_range_p6 x y z d)))))).
 Qed.
 Print Assumptions C04_lat_range.
 
@@ -38,9 +40,9 @@ Theorem C04_roundtrip : forall x y z d, 0 < x * x + y * y ->
   (gen_lla_exit_p5 x y z d -> roundtrip_ok x y z d (gen_lla_lat_p5 x y z d) (gen_lla_alt_p5 x y z d)) /\
   (gen_lla_exit_p6 x y z d -> roundtrip_ok x y z d (gen_lla_lat_p6 x y z d) (gen_lla_alt_p6 x y z d)).
 Proof.
-  intros x y z d H. repeat split; intros E;
-  first [exact (proj1 (roundtrip_p1 x y z d H E))|idtac];
-  first [apply roundtrip_p1|apply roundtrip_p2|apply roundtrip_p3|apply roundtrip_p4|apply roundtrip_p5|apply roundtrip_p6]; assumption.
+  intros x y z d H.
+  exact (conj (roundtrip_p1 x y z d H) (conj (roundtrip_p2 x y z d H) (conj (roundtrip_p3 x y z d H)
+        (conj (roundtrip_p4 x y z d H) (conj (roundtrip_p5 x y z d H) (roundtrip_p6 x y z d H)))))).
 Qed.
 Print Assumptions C04_roundtrip.
 
@@ -53,7 +55,10 @@ Theorem C04_observer_is_spec : forall d lon lat alt,
   gen_observer_x d lon lat alt = eci_x wgs84_A (deg2rad lon) (deg2rad lat) alt (gen_gmst d) /\
   gen_observer_y d lon lat alt = eci_y wgs84_A (deg2rad lon) (deg2rad lat) alt (gen_gmst d) /\
   gen_observer_z d lon lat alt = eci_z wgs84_A (deg2rad lon) (deg2rad lat) alt (gen_gmst d).
-Proof. intros. split; [apply observer_x_spec|split; [apply observer_y_spec|apply observer_z_spec]]. Qed.
+Proof.
+  intros d lon lat alt.
+  exact (conj (observer_x_spec d lon lat alt) (conj (observer_y_spec d lon lat alt) (observer_z_spec d lon lat alt))).
+Qed.
 Print Assumptions C04_observer_is_spec.
 
 (* velocity = earth rotation (0, 0, w) cross position *)
@@ -96,8 +101,5 @@ Proof.
   replace (0 / (1275627 / 200)) with 0 by field.
   assert (P : 0 < sqrt ((7000 / (1275627 / 200)) ^ 2 + 0 ^ 2)) by (apply sqrt_lt_R0; lra).
   rewrite !Atan2Lib.atan2_pos_x by exact P.
-  unfold Rdiv at 2. rewrite Rmult_0_l, atan_0, sin_0.
-  replace (0 + 1 / sqrt (1 - 595514447126000000000 / 88957371407509362414969 * 0 ^ 2) *
-           (595514447126000000000 / 88957371407509362414969) * 0) with 0 by ring.
-  unfold Rdiv at 1. rewrite Rmult_0_l, atan_0, Rminus_0_r, Rabs_R0. lra.
+  interval.
 Qed.
